@@ -6,7 +6,7 @@ traced value ("D"); every other parameter is bound to `U` (some valid value: X, 
 (non-data parameters, optional data parameters other than p) -- so the trace is the one of a call that passes
 X, y, p and defaults otherwise.  The result is the ordered list of abstract actions applied to p:
 
-  CheckFitted | CheckY | CheckX nf cats | CheckArray | CheckLen | CheckXy          validators (utils.check_*)
+  CheckFitted | CheckY params_validated | CheckX nf cats | CheckArray | CheckLen | CheckXy          validators (utils.check_*)
   NeedsArray what                       an ndarray attribute (.ravel(), .astype(), .shape) read off the argument
                                         as passed: AttributeError for a list / tuple, harmless for an ndarray
   (np.array(p), arithmetic, len(p), np.ones_like(p) accept any array-like and validate nothing: no action; their
@@ -30,7 +30,7 @@ NONDATA = {'width', 'quantiles', 'term', 'meshgrid', 'n', 'scaled', 'return_scor
            'progress', 'quantity', 'n_draws', 'n_bootstraps', 'quantile', 'max_iter', 'tol', 'param_grids', 'mu'}
 FITTING = ('fit', 'gridsearch', 'fit_quantile')
 ROOT = 'GAM'
-MAX_DEPTH = 4
+MAX_DEPTH = 6
 
 D, A, U, S, N, L = 'D', 'A', 'U', 'S', 'N', 'L'
 # L: a value that only carries the *length* of the traced argument (len(p), p.shape, np.ones_like(p), np.ones(p.shape[0]));
@@ -162,6 +162,7 @@ class Tracer:
     def __init__(self, classes, cls):
         self.k = classes
         self.cls = cls
+        self.vp = False      # self._validate_params() seen: self.link / self.distribution are objects, not strings
 
     # ------------------------------------------------------------------ helpers
     def mentions(self, node, env):
@@ -275,6 +276,8 @@ class Tracer:
             for c in ast.walk(node):
                 if isinstance(c, ast.Call):
                     sc = self.self_call(c, env, ctx['fn_cls'])
+                    if sc and sc[0] == '_validate_params':
+                        self.vp = True
                     if sc and sc[1] is None and self.guarded(sc[0]):
                         acts.append(('CheckFitted',))
             try:
@@ -412,7 +415,7 @@ class Tracer:
             if f.id == 'check_y':
                 if set(kwn) - {'verbose', 'min_samples'} or len(pos) != 3:
                     raise Unsupported('check_y call shape: %s' % short(node))
-                act = ('CheckY',)
+                act = ('CheckY', self.vp)
             elif f.id == 'check_X':
                 if set(kwn) - {'verbose', 'min_samples', 'n_feats', 'edge_knots', 'dtypes', 'features'} or len(pos) != 1:
                     raise Unsupported('check_X call shape: %s' % short(node))
@@ -437,6 +440,8 @@ class Tracer:
             r = self.k.resolve(self.cls, meth, after)
             tainted = any(has_D(v) for v in pos) or any(has_D(v) for v in kw.values())
             if not tainted:
+                if meth == '_validate_params':
+                    self.vp = True
                 if r is not None and after is None and self.guarded(meth):
                     acts.append(('CheckFitted',))
                 return acts, U, False
@@ -823,8 +828,10 @@ def qs(s):
 
 def act_coq(a):
     t = a[0]
-    if t in ('CheckFitted', 'CheckY', 'CheckArray', 'CheckLen', 'CheckXy'):
+    if t in ('CheckFitted', 'CheckArray', 'CheckLen', 'CheckXy'):
         return t
+    if t == 'CheckY':
+        return '(CheckY %s)' % ('true' if a[1] else 'false')
     if t == 'NeedsArray':
         return '(NeedsArray %s)' % qs(a[1])
     if t == 'CheckX':
